@@ -38,8 +38,9 @@ _LEAVES = []
 def build_any(d):
     if d['prim'] == 'observation':
         from synphot import Observation
+        kw = {'force': d['force']} if d.get('force') else {}
         return Observation(O.build_prim(d['src']), O.build_prim(d['band']),
-                           binset=np.array([O.fl(x) for x in d['binset']]))
+                           binset=np.array([O.fl(x) for x in d['binset']]), **kw)
     return O.build_prim(d)
 
 
@@ -106,8 +107,20 @@ def impl_call(case):
     return out
 
 
+def model_view(e):
+    """the expression as the model sees it: an observation built with force='taper' observes the tapered source
+    (`src_model`, the table with its two tapering points), and is admitted without further ado"""
+    if isinstance(e, dict):
+        if e.get('prim') == 'observation' and 'src_model' in e:
+            return {'prim': 'observation', 'src': e['src_model'], 'band': e['band'], 'binset': e['binset']}
+        return {k: model_view(v) for k, v in e.items()}
+    if isinstance(e, list):
+        return [model_view(v) for v in e]
+    return e
+
+
 def model_case(case):
-    return {'op': 'expr', 'const': case['const'], 'expr': case['expr'], 'xs': case['xs']}
+    return {'op': 'expr', 'const': case['const'], 'expr': model_view(case['expr']), 'xs': case['xs']}
 
 
 def compare(case, o, m):
@@ -119,6 +132,8 @@ def compare(case, o, m):
         return None
     if o2.get('err') in ('PartialOverlap', 'DisjointError', 'ZeroWavelength') and 'observation' in json.dumps(case['expr']):
         return None     # admission of the rebuilt observation is C06's subject, not modelled here
+    if o2.get('err') == 'ZeroDivisionError' and '"taper"' in json.dumps(case['expr']) and '"div"' in json.dumps(case['expr']):
+        return None     # a sampled division by zero while tapering (the model refuses to sample there, too)
     # absolute floor: cancellation between operands of very different size is legitimate rounding
     mags = [abs(x) for x in (o2.get('ok', {}).get('vals') or []) if isinstance(x, float)]
     for _, a, b, r in o.get('_nodes', []):
@@ -203,6 +218,8 @@ def oracle(rep, case, out):
             return      # a sampled division by zero, not a typing matter
         if out['err'] in ('PartialOverlap', 'DisjointError', 'ZeroWavelength') and '"observation"' in json.dumps(case['expr']):
             return      # the (re)built observation is subject to the admission rules of C06 / the sampling-set rule of C13
+        if out['err'] == 'ZeroDivisionError' and '"taper"' in json.dumps(case['expr']) and '"div"' in json.dumps(case['expr']):
+            return      # tapering samples the product at its end points: a quotient by a spectrum that is zero there
         rep.oracle_fail('typing:listed_raises:%s:%s' % (sig_cls, out['err']),
                         'documented combination raised %s: %s' % (out['err'], out.get('msg', '')), case, out)
         return
@@ -316,6 +333,23 @@ def gen_tree(rng, depth, want='source'):
 def gen_obs_leaf(rng):
     """an observation operand: a source that covers its bandpass, on a uniform binset"""
     from . import c07
+    if rng.random() < 0.35:
+        # a table source covering only the middle of its bandpass, observed with force='taper': what is multiplied
+        # later is the tapered source (zero beyond its two tapering points), sampled out there as well
+        a1, width = O.dy(rng, 2000, 4000, 0), O.dy(rng, 2000, 5000, 0)
+        band = {'prim': 'bandpass', 'leaf': {'leaf': 'box', 'amp': q(O.dy(rng, 0.125, 1, 3)), 'x0': q(a1 + width / 2), 'width': q(width),
+                                             'step': q(width / 8)}}
+        n = rng.randint(3, 6)
+        pts = sorted({a1 + width * F(rng.randint(12, 52), 64) for _ in range(n)})
+        if len(pts) >= 2:
+            vals = [O.dy(rng, 0.25, 8, 3) for _ in pts]
+            t1, t2 = F(float(pts[0]) ** 2 / float(pts[1])), F(float(pts[-1]) ** 2 / float(pts[-2]))
+            src = {'prim': 'source', 'leaf': {'leaf': 'empirical', 'pts': qs(pts), 'vals': qs(vals), 'keep_neg': False}}
+            src_model = {'prim': 'source', 'leaf': {'leaf': 'empirical', 'pts': qs([t1] + pts + [t2]), 'vals': qs([F(0)] + vals + [F(0)]),
+                                                    'keep_neg': False}}
+            step = width / 32
+            return {'prim': 'observation', 'src': src, 'src_model': src_model, 'band': band, 'force': 'taper',
+                    'binset': qs([a1 + width / 8 + i * step for i in range(25)])}
     src, band = c07.gen_pair(rng)
     if src['leaf']['leaf'] == 'empirical':     # tables must span the band to be admitted without force
         src = {'prim': 'source', 'leaf': {'leaf': 'constflux', 'amp': q(O.dy(rng, 0.25, 8, 3)), 'unit_name': rng.choice(['photlam', 'flam'])}}
